@@ -5,9 +5,9 @@ cd "$(dirname "$0")"
 export GOFLAGS=-mod=mod GOPROXY=off GOSUMDB=off GOTOOLCHAIN=local
 mkdir -p bin evidence replays
 (cd extract && go build -o ../bin/extract .)
-./bin/extract /repo/go lean/Panrpc/Generated/Current.lean lean/Panrpc/Generated/facts.json
+./bin/extract ${VERIF_REPO:-/repo}/go lean/Panrpc/Generated/Current.lean lean/Panrpc/Generated/facts.json
 (cd lean && lake build Panrpc driver)
-cp /repo/go/go.sum harness/go.sum
+cp ${VERIF_REPO:-/repo}/go/go.sum harness/go.sum
 (cd harness && go build -tags verif -o ../bin/harness .)
 rm -f bin/.extract.stamp bin/.harness.stamp
 echo setup ok
